@@ -31,6 +31,14 @@ func calleeName(info *types.Info, c *ast.CallExpr) string {
 }
 
 func funcObjName(fo *types.Func) string {
+	// repository functions are reported under their reference-tree names
+	if p := core.CurrentProgram; p != nil {
+		if n := p.CanonFuncName(fo); n != "" {
+			if f := p.FuncOf(fo); f != nil {
+				return repoPath + f.Pkg.Name + "." + f.Short
+			}
+		}
+	}
 	sig, _ := fo.Type().(*types.Signature)
 	pkg := ""
 	if fo.Pkg() != nil {
